@@ -1,5 +1,5 @@
 """C13 (deterministic, history-independent output) and C14 (checked-in generated files are a fixpoint)."""
-import json, os, random, shutil, subprocess, hashlib, itertools
+import tempfile, json, os, random, shutil, subprocess, hashlib, itertools
 from vlib import *
 import pcase, grams, lcase, lgrams
 
@@ -361,7 +361,45 @@ def c13(tier):
         if len(set(rs)) != 1:
             rep.failure("c13.nondeterministic-output:" + name, "%d generations of %s gave %d different outputs" % (N, name, len(set(rs))),
                         {"spec": files})
+    # ---- a specification spread over several .lox files: the output is a function of the files, not of the order in which the
+    # operating system lists them (ext4 lists by name hash, tmpfs by creation history): same files, different creation
+    # orders, two file systems
+    MF = {"b.lox": "@lexer\nWORD = [a-z]+\nNUMBER = [0-9]+\n@frag ' '+ @discard\n",
+          "a.lox": "@lexer\nCOMMA = ','\nSEMI = ';'\nOP = '(' @push_mode(In)\n@mode In {\n  CP = ')' @pop_mode\n  INW = [a-z]+\n}\n",
+          "c.lox": "@lexer\n@external EXT_A EXT_B\nHASH = '#'\n",
+          "p.lox": "@parser\n@start s = @list(item, ',') ';'\nitem = WORD | NUMBER | OP INW* CP | HASH EXT_A\n",
+          "act.go": "package proj\n\ntype Token struct{ Ty int }\n\ntype P struct{ lox }\n\n"
+                    "func (p *P) on_s(xs []int, t Token) int { return len(xs) }\n"
+                    "func (p *P) on_item(t Token) int { return 1 }\n"
+                    "func (p *P) on_item__paren(o Token, ws []Token, c Token) int { return 2 }\n"
+                    "func (p *P) on_item__ext(h Token, e Token) int { return 3 }\n"}
+    orders = [sorted(MF), sorted(MF, reverse=True), ["p.lox", "c.lox", "act.go", "b.lox", "a.lox"], ["c.lox", "a.lox", "p.lox", "act.go", "b.lox"]]
+    roots = [sc] + (["/dev/shm"] if os.path.isdir("/dev/shm") and os.access("/dev/shm", os.W_OK) else [])
+    mfres = []
+    for root in roots:
+        base = tempfile.mkdtemp(prefix="verif-c13-", dir=root)
+        try:
+            for oi, order in enumerate(orders):
+                mod, proj = new_project(os.path.join(base, "mf%d" % oi), "m")
+                if oi == 3:      # directory history: a file created and removed before the real ones
+                    open(os.path.join(proj, "0.lox"), "w").write("x")
+                    os.remove(os.path.join(proj, "0.lox"))
+                for fn in order:
+                    open(os.path.join(proj, fn), "w").write(MF[fn])
+                rc, out, err = run_gen(lox, mod, proj, "inside", True, sc)
+                g = read_gen(proj)
+                mfres.append((root, oi, rc, hashlib.sha256(b"|".join((g[k] or b"") for k in sorted(g)) + b"|" + out).hexdigest(), err[-300:]))
+        finally:
+            shutil.rmtree(base, ignore_errors=True)
+    if any(r[2] != 0 for r in mfres):
+        rep.failure("c13.multi-file-project-rejected", "a well-formed multi-file project is rejected: %s" % [r for r in mfres if r[2] != 0][0][4], {"files": MF})
+    elif len({r[3] for r in mfres}) != 1:
+        rep.failure("c13.output-depends-on-directory-listing-order",
+                    "the same five files created in different orders / on different file systems give %d different outputs: %s" % (
+                        len({r[3] for r in mfres}), [(r[0], r[1], r[3][:8]) for r in mfres]), {"files": MF, "orders": orders})
+    nrep += len(mfres)
     rep.coverage = {
+        "multi_file_generations": len(mfres), "file_systems": roots,
         "states": rm.distinct + rt.distinct, "transitions": rm.states + rt.states,
         "traces_validated_against_impl": len(hist) - len(rej),
         "evaluations": len(hist) + nrep, "distinct_nontrivial": len([h for h in hist if len(h["steps"]) >= 2]),
